@@ -13,13 +13,17 @@ use std::time::Duration;
 use vcore::refval::RefVal;
 use vcore::report::Report;
 
-const EVENTS: [&str; 24] = [
+const EVENTS: [&str; 25] = [
     "send->live", "send->dead", "send->never", "reg_send->registered", "reg_send->unknown", "exit->live", "monitor_exit->live", "rpc_reply",
     "unknown_control_99", "control_rejected_by_parser", "tick", "undecodable_body", "wrong_marker", "overlong_length", "premature_close", "close",
-    "silence_5s", "silence_9s", "silence_15s", "local:register_later", "reg_send->later", "send->crashed", "local:send_fails", "local:move_name",
+    "silence_5s", "silence_9s", "silence_15s", "local:register_later", "reg_send->later", "send->crashed", "local:send_fails", "local:move_name", "local:register_taken_name",
 ];
 
-fn execute(seq: &[usize], ctx: &WorkerCtx) -> ExecResult {
+fn execute(seq: &[usize], ctx: &WorkerCtx) -> ExecResult { execute_split(seq, None, ctx) }
+
+/// `split`: every frame of the peer is written in two parts (the first `split` bytes, then the rest once the library has
+/// had a turn) - a frame's body arriving after its length prefix is ordinary TCP behaviour.
+fn execute_split(seq: &[usize], split: Option<usize>, ctx: &WorkerCtx) -> ExecResult {
     run_rt(async move {
         let mut res = ExecResult::default();
         let mut nw = match node_world(ctx, flags_default()).await {
@@ -27,6 +31,7 @@ fn execute(seq: &[usize], ctx: &WorkerCtx) -> ExecResult {
             Err(e) => { res.outcome = format!("setup failed: {}", e); res.violations.push(("could not establish the connection under a conforming peer".into(), json!({"error": e}))); return res; }
         };
         nw.w.gates.set_active(&[]);
+        nw.peer.split_at = split;
         let log: Log = Arc::new(Mutex::new(vec![]));
         let p1 = nw.node.spawn(Rec { name: "p1".into(), log: log.clone() }).await.unwrap();
         let p2 = nw.node.spawn(Rec { name: "p2".into(), log: log.clone() }).await.unwrap();
@@ -78,6 +83,12 @@ fn execute(seq: &[usize], ctx: &WorkerCtx) -> ExecResult {
                     let _ = nw.node.unregister(&Atom::new("reg")).await;
                     reg_moved = !reg_moved;
                     let _ = nw.node.register(Atom::new("reg"), if reg_moved { p1.clone() } else { p2.clone() }).await;
+                }
+                "local:register_taken_name" => {
+                    // a registration that is refused (the name is taken) changes nothing for inbound traffic
+                    is_frame = false;
+                    let other = if reg_moved { p2.clone() } else { p1.clone() };
+                    if nw.node.register(Atom::new("reg"), other).await.is_ok() { res.violations.push(("a name that is taken was registered a second time".into(), json!({"name": "reg"}))); }
                 }
                 "reg_send->unknown" => { nw.peer.send(&reg_send_to("nobody", mark.clone())); }
                 "reg_send->later" => { nw.peer.send(&reg_send_to("later", mark.clone())); if later_registered { delivered = Some(("p1".into(), format!("msg:{}", mark))); } }
@@ -231,12 +242,17 @@ fn junk_run_exec(n: &usize, ctx: &WorkerCtx) -> ExecResult {
         let p1 = nw.node.spawn(Rec { name: "p1".into(), log: log.clone() }).await.unwrap();
         let d1 = den_pid(&p1);
         let probe = { let l = log.clone(); move || l.lock().unwrap().len() as u64 };
-        let bodies: [&[u8]; 5] = [&[112, 131, 104, 3, 97], &[112], &[112, 131], &[112, 200, 1], &[131, 68, 0, 104, 1, 97, 1]];
+        // (the last three: an unknown tag, a cut-off integer and a cut-off atom below 1, 40 and 250 levels of containers)
+        let deep = |k: usize, tail: &[u8]| { let mut b = vec![112u8, 131]; for i in 0..k { if i % 2 == 0 { b.extend_from_slice(&[104, 1]); } else { b.extend_from_slice(&[108, 0, 0, 0, 1]); } } b.extend_from_slice(tail); b };
+        let bodies: Vec<Vec<u8>> = vec![vec![112, 131, 104, 3, 97], vec![112], vec![112, 131], vec![112, 200, 1], vec![131, 68, 0, 104, 1, 97, 1], deep(1, &[200]), deep(40, &[98, 0, 0]), deep(250, &[119, 5, b'a'])];
         for i in 0..n {
-            nw.peer.send(&vcore::proto::frame(bodies[i % 5], 4));
+            nw.peer.send(&vcore::proto::frame(&bodies[i % bodies.len()], 4));
             if i % 10 == 9 { nw.w.settle(&mut nw.peer, &probe).await; }
         }
-        let m = RefVal::Tuple(vec![RefVal::atom("after_the_junk"), RefVal::int(n as i64)]);
+        // the message that follows is itself nested 200 deep (well inside what the decoder accepts)
+        let mut inner = RefVal::int(n as i64);
+        for _ in 0..200 { inner = RefVal::Tuple(vec![inner]); }
+        let m = RefVal::Tuple(vec![RefVal::atom("after_the_junk"), inner]);
         nw.peer.send(&send_to(&d1, m.clone()));
         nw.w.settle(&mut nw.peer, &probe).await;
         let got: Vec<String> = log.lock().unwrap().iter().map(|x| x.1.clone()).collect();
@@ -322,6 +338,15 @@ pub fn run(rep: &Report) -> Value {
         }
         r
     });
+    // the same for sequences of <= 2 events with every frame arriving in two parts: cut inside the length prefix, right
+    // after it, one byte into the body, and in the middle of a typical body
+    let mut split_cases: Vec<(Vec<usize>, usize)> = vec![];
+    for c in cases.iter().filter(|c| !c.is_empty() && c.len() <= 2) { for k in [2usize, 4, 5, 20] { if c.len() == 1 || k == 4 { split_cases.push((c.clone(), k)); } } }
+    let st_split: Stats = for_all(rep, "inbound sequences, every frame in two parts", &split_cases, |c, ctx| {
+        let mut r = execute_split(&c.0, Some(c.1), ctx);
+        if r.violations.iter().any(|v| v.0.starts_with("KNOWN:")) { r.violations.retain(|v| !v.0.starts_with("KNOWN:")); }
+        r
+    });
     let coalesced: Vec<usize> = vec![0, 1, 2, 5];
     let st_c: Stats = for_all(rep, "first frames in the same segment as the handshake acknowledgement", &coalesced, |n, ctx| coalesced_exec(*n, ctx));
     let junks: Vec<usize> = vec![15, 16, 17, 60, 300];
@@ -329,9 +354,9 @@ pub fn run(rep: &Report) -> Value {
     let backlogs: Vec<usize> = vec![999, 1000, 1001, 1002, 1500];
     let st_b: Stats = for_all(rep, "recipient more than a mailbox behind", &backlogs, |n, ctx| backlog_exec(*n, ctx));
     json!({
-        "states": st.executions + st_b.executions + st_c.executions + st_j.executions,
+        "states": st.executions + st_split.executions + st_b.executions + st_c.executions + st_j.executions,
         "transitions": st.transitions + st_b.transitions,
-        "traces_validated_against_impl": st.executions + st_b.executions + st_c.executions,
+        "traces_validated_against_impl": st.executions + st_split.executions + st_b.executions + st_c.executions,
         "backlog_scenarios": backlogs,
         "samples": [ {"events": cases[cases.len() / 2].iter().map(|&e| EVENTS[e]).collect::<Vec<_>>()}, {"events": cases[cases.len() - 7].iter().map(|&e| EVENTS[e]).collect::<Vec<_>>()}, {"alphabet": EVENTS} ],
         "exhaustive": true,
